@@ -316,29 +316,6 @@ theorem setCapacity_items (r : Ring) (c : Nat) (x : Stmt) (h : x ∈ (r.setCapac
   · cases h
 
 
-theorem mem_ins {α} (le : α → α → Bool) (x y : α) : ∀ (l : List α), y ∈ insSorted.ins le x l ↔ y = x ∨ y ∈ l
-  | [] => by simp [insSorted.ins]
-  | z :: zs => by
-    unfold insSorted.ins
-    split
-    · simp
-    · simp only [List.mem_cons, mem_ins le x y zs]
-      constructor
-      · rintro (h | h | h)
-        · exact Or.inr (Or.inl h)
-        · exact Or.inl h
-        · exact Or.inr (Or.inr h)
-      · rintro (h | h | h)
-        · exact Or.inr (Or.inl h)
-        · exact Or.inl h
-        · exact Or.inr (Or.inr h)
-
-theorem mem_insSorted {α} (le : α → α → Bool) (y : α) : ∀ (l : List α), y ∈ insSorted le l ↔ y ∈ l
-  | [] => by simp [insSorted]
-  | x :: xs => by
-    unfold insSorted
-    rw [mem_ins, mem_insSorted le y xs, List.mem_cons]
-
 theorem activeSinks_alive {s : BSt} (h : LS s) : ∀ sid ∈ activeSinks s, (s.sinkOf sid).alive = true := by
   intro sid hs
   unfold activeSinks at hs
